@@ -16,5 +16,14 @@ for dir in seeded seeded2 seeded3; do
     echo "$dir/$id expected=$want got=$got ($n violation lines) $status"
   done < $dir/EXPECTED
 done
+# canaries: the repaired defects, re-introduced (reverse of each fix: commit), must be reported again
+while read -r prop patch want; do
+  [ -z "$prop" ] && continue
+  out=$(tools/seedtest.sh $prop $patch 2>&1)
+  n=$(echo "$out" | grep -c '^VIOLATION')
+  got=missed; [ "$n" -gt 0 ] && got=caught
+  status=ok; [ "$got" != "$want" ] && { status=MISMATCH; fail=1; }
+  echo "$patch ($prop) expected=$want got=$got ($n violation lines) $status"
+done < canaries/LIST
 # the unchanged tree must be quiet
 exit $fail
